@@ -54,7 +54,7 @@ class C07(Check):
             "truncation / zero-extension laws, no dependence on data outside the buffer (bytes / bytearray / memoryview slice). "
             "distinct = hash of (type features, fault kind, position class: inside prefix/tag/header/nested/after last field, "
             "outcome); non-trivial = the fault landed inside a multi-byte item or a nested object")
-    TIERS = {"quick": {"runs": 400, "budget_s": 55}, "thorough": {"runs": 30000, "budget_s": 1200}}
+    TIERS = {"quick": {"runs": 320, "budget_s": 55}, "thorough": {"runs": 30000, "budget_s": 1200}}
     FAULTS_NOT_INJECTED = ["threads", "real sockets (the channel is an in-process function)"]
 
     def generate(self, rng: random.Random, r: int, tier: str) -> dict:
